@@ -208,6 +208,55 @@ def triples(o1: int, o2: int, o3: int) -> bool:
     return H.done(ok)
 
 
+# ---- histories of factories and engines in one process: every engine parses by ITS table, whatever was created before
+HIST_INSERTS = [['and', True, 'xor', R.LEFT, False], ['+', True, '**', R.RIGHT, True], ['not', False, '~', R.PREFIX, False],
+                ['*', True, '!', R.SUFFIX, True], ['<', True, '<-', R.RIGHT, True], ['>', True, 'implies', R.LEFT, True]]
+HIST_TEXT_OPS = [['+', '*'], ['and', 'or'], ['<', '='], ['or', '->'], ['=', '>'], ['-', '+']]
+HBOX = [(i,) for i in range(8)]
+
+
+def _tree_ok(eng, tab, toks):
+    text = R.render(toks, 0)
+    try:
+        got = R.dump(eng(text))
+    except Exception as e:
+        got = ('EXC', type(e).__name__)
+    return got == R.ref_parse(toks, tab)
+
+
+def factory_history(i: int, j: int) -> bool:
+    """
+    pre: 0 <= i < len(HIST_INSERTS) and 0 <= j < len(HIST_INSERTS) and i != j
+    post: _
+    """
+    ins1, ins2 = HIST_INSERTS[HBOX[i][0]], HIST_INSERTS[HBOX[j][0]]
+    legacy = bool(H.P('legacy'))
+    with H.NoTracing():
+        f = ylegacy.YaqlFactory() if legacy else yaql.YaqlFactory()
+        other = yaql.YaqlFactory() if legacy else ylegacy.YaqlFactory()
+        e0, t0 = f.create(), R.Table(list(f.operators))
+        o0, ot = other.create(), R.Table(list(other.operators))
+        f.insert_operator(*ins1)
+        e1, t1 = f.create(), R.Table(list(f.operators))
+        f.insert_operator(*ins2)
+        e2, t2 = f.create(), R.Table(list(f.operators))
+        ok = True
+        for eng, tab, ops in [(e, t, o) for o in HIST_TEXT_OPS for (e, t) in ((e0, t0), (o0, ot), (e1, t1), (e2, t2), (o0, ot), (e0, t0))]:
+            texts = [seq_tokens(ops, [None, None], [None, None])]
+            for sym in (ins1[2], ins2[2]):
+                if sym in tab.binops:
+                    texts.append(seq_tokens([ops[0], sym], [None, None], [None, None]))
+                    texts.append(seq_tokens([sym, ops[1]], [None, None], [None, None]))
+                elif sym in tab.preops:
+                    texts.append(seq_tokens(ops, [sym, None], [None, None]))
+                elif sym in tab.sufops:
+                    texts.append(seq_tokens(ops, [None, None], [None, sym]))
+            for toks in texts:
+                if all(tk[1] in tab.binops for tk in toks if tk[0] == 'bin'):
+                    ok = ok and _tree_ok(eng, tab, toks)
+    return H.done(ok)
+
+
 SHAPES_ALL = ['var', 'index', 'call', 'method', 'list', 'map', 'paren-var', 'index-expr', 'call-expr', 'index2']
 
 
@@ -584,6 +633,11 @@ def focus_ops(tab, base_tab):
 
 
 def conditions(tier, seed):
+    hist = [{'name': 'factory_history[%s]' % ('legacy' if lg else 'default'), 'func': 'factory_history', 'timeout': 600, 'param': {'legacy': lg},
+            'bounds': 'one factory (default or legacy): create, insert_operator, create, insert_operator, create, with an engine of '
+                      'the other stock table alive in the same process; every engine must parse %d operator pairs (plus the inserted '
+                      'operators) by its own table; %d x %d insertion pairs (selectors)' % (len(HIST_TEXT_OPS), len(HIST_INSERTS), len(HIST_INSERTS) - 1)}
+            for lg in (False, True)]
     quick = tier == 'quick'
     out = []
 
@@ -684,6 +738,7 @@ def conditions(tier, seed):
                                                                'shapes': [sh], 'pres': ['-'] if quick else ['-', 'not']},
                 '%s table: operator pairs over %s, operand shape %s at each of 3 positions, 5 parenthesisations, 3 '
                 'white-space renderings, optional leading prefix operator' % (tname, vops, sh), timeout=400)
+    out.extend(hist)
     return out
 
 
@@ -765,6 +820,12 @@ def replay(cond, args):
         return {'reproduced': False}
     table = (cond.get('param') or {}).get('table', 'default')
     label = table if isinstance(table, str) else 'inserted'
+    if cond['func'] == 'factory_history':
+        return {'reproduced': True, 'key': 'C02/factory-history',
+                'what': 'one %s factory: create(), insert_operator%r, create(), insert_operator%r, create() (and a %s engine in the same '
+                        'process): some engine does not parse by its own operator table' % (
+                            'legacy' if (cond.get('param') or {}).get('legacy') else 'default', tuple(HIST_INSERTS[args['i']]),
+                            tuple(HIST_INSERTS[args['j']]), 'default' if (cond.get('param') or {}).get('legacy') else 'legacy')}
     if cond['func'] in ('pairs', 'triples'):
         toks = _c_tokens(cond, args)
         okk, text, got, exp = check_tokens(toks, H.P('ws', 0))
